@@ -447,7 +447,7 @@ Symmetric ==
 RECURSIVE Unflat(_, _, _)
 Unflat(f, d, k) == IF k > Len(d) THEN <<>> ELSE <<(f % d[k]) + 1>> \o Unflat(f \div d[k], d, k + 1)
 LazyTab(ops, xv) ==
-    [f \in 1..Prod(Dims(ops), 1) |-> IF xv /\ f = 2 THEN [x |-> 1, s |-> <<>>] ELSE [x |-> 0, s |-> Unflat(f - 1, Dims(ops), 1)]]
+    [f \in 1..Prod(Dims(ops), 1) |-> IF xv /\ f = 2 THEN [x |-> 1, s |-> "X"] ELSE [x |-> 0, s |-> Unflat(f - 1, Dims(ops), 1)]]
 LOps == args[1]
 LExp == LazyExpected(LOps, LazyTab(LOps, args[4]), args[2], args[3])
 LazyPos(ops) == {k \in 1..Len(ops) : ops[k].k \in LazyK}
